@@ -41,8 +41,8 @@ ANCHORS = [
 
 def plan(tier):
     if tier == "quick":
-        return {"shards": 16, "histories": 110, "timeout": 300}
-    return {"shards": 16, "histories": 5000, "timeout": 3000}
+        return {"shards": 16, "histories": 110, "timeout": 900}
+    return {"shards": 16, "histories": 5000, "timeout": 7200}
 
 
 def walk(spec, path=(), out=None):
